@@ -39,6 +39,9 @@ Proof. intros. unfold upd. rewrite field_eqb_refl. reflexivity. Qed.
 Lemma upd_other : forall st f z g, g <> f -> upd st f z g = st g.
 Proof. intros st f z g H. unfold upd. apply field_eqb_neq in H. rewrite H. reflexivity. Qed.
 
+Lemma tabulate_eq : forall d f, tabulate d f = d f.
+Proof. intros d f. destruct f; reflexivity. Qed.
+
 (* ------------------------------------------------------------------ concretisation *)
 Definition gam (v0 : vstate) (a : astate) (c : cfg) : Prop :=
   (forall f, dirty a f = false -> cur c f = v0 f) /\
@@ -58,15 +61,15 @@ Qed.
 
 Lemma gam_join_l : forall v0 a b c, gam v0 a c -> gam v0 (join a b) c.
 Proof.
-  intros v0 a b c [H1 H2]. split; simpl.
-  - intros f Hf. apply orb_false_iff in Hf. apply H1. tauto.
+  intros v0 a b c [H1 H2]. unfold join. split; cbn [dirty sorig].
+  - intros f Hf. rewrite tabulate_eq in Hf. apply orb_false_iff in Hf. apply H1. tauto.
   - intros k f Hm. apply H2. apply smem_in in Hm. apply filter_In in Hm. apply smem_in. tauto.
 Qed.
 
 Lemma gam_join_r : forall v0 a b c, gam v0 b c -> gam v0 (join a b) c.
 Proof.
-  intros v0 a b c [H1 H2]. split; simpl.
-  - intros f Hf. apply orb_false_iff in Hf. apply H1. tauto.
+  intros v0 a b c [H1 H2]. unfold join. split; cbn [dirty sorig].
+  - intros f Hf. rewrite tabulate_eq in Hf. apply orb_false_iff in Hf. apply H1. tauto.
   - intros k f Hm. apply H2. apply smem_in in Hm. apply filter_In in Hm. tauto.
 Qed.
 
@@ -91,6 +94,17 @@ Proof. intros p c s H. destruct p; simpl; rewrite H; reflexivity. Qed.
 
 Lemma iter_failed : forall fuel n body c s, failed c = Some s -> iter fuel n body c = c.
 Proof. intros fuel n body c s H. destruct fuel; simpl; [reflexivity | rewrite H; reflexivity]. Qed.
+
+Lemma run_Loop : forall n p c, failed c = None ->
+  run (Loop n p) c = iter (S (length (orc c))) n (run p) c.
+Proof. intros n p c H. cbn [run]. rewrite H. reflexivity. Qed.
+
+Lemma analyse_Loop : forall n p a,
+  analyse (Loop n p) a =
+  let inv := stabilise (14 + length (sorig a)) (fun x => fst (analyse p x)) a in
+  let (e, fs) := analyse p inv in
+  if aleb e inv && aleb a inv then (inv, fs) else (atop, [atop]).
+Proof. reflexivity. Qed.
 
 (* ------------------------------------------------------------------ loops *)
 Lemma iter_sound :
@@ -224,8 +238,8 @@ Proof.
         -- apply W2. rewrite <- E2. apply IHp2; [reflexivity + exact Hf |]. eapply gam_ext; [| | exact Hg]; reflexivity.
       * apply W2. rewrite <- E2. apply IHp2; [exact Hf |]. eapply gam_ext; [| | exact Hg]; reflexivity.
   - (* Loop *)
-    simpl. rewrite Hf.
-    set (inv := stabilise 30 (fun x => fst (analyse p x)) a0').
+    rewrite (run_Loop _ _ _ Hf), analyse_Loop.
+    set (inv := stabilise (14 + length (sorig a0')) (fun x => fst (analyse p x)) a0'). cbv zeta.
     destruct (analyse p inv) as [e fs] eqn:E.
     destruct (aleb e inv && aleb a0' inv) eqn:St.
     + apply andb_true_iff in St. destruct St as [S1 S2].
